@@ -1,11 +1,14 @@
 """C08 – emitted frames are spec-conformant and round-trip: case generation."""
 import random
 from vf import Case
+from gen import constants
 from props import regpcommon as R
 
 ID = "C08"
 DRIVER = "drv_regp"
 HARNESS = "h_regp"
+GEN = [constants.gen]
+TIE = ['Ufw.Tie.Regp', 'Ufw.Tie.Slip', 'Ufw.Tie.Varint']
 RULE = ("every emit entry point (read/write requests in 8/16-bit semantics, acknowledgement with and without payload, the eleven error "
         "responses, both meta messages) x {serial, tcp} x {8, 16}-bit memory x addresses (0, SLIP control octets in every position, "
         "0xffffffff, random) x block sizes (0, 1, 2, 63..65, 115..117 = varint boundary of the TCP frame, 4 GiB-1 for reads) x payloads "
